@@ -157,15 +157,16 @@ def generate(streams: core.Streams, tier: str) -> dict:
                                    "condition": "sel"}})
         kinds.add("regex_with_flags_under_incompatible_modifier")
     if pipeline is not None and gen.chance(w, 0.15):
-        # two fields mapped to one name that is mapped on twice more: the tracking table of the pipeline
+        # several fields mapped to one name that is mapped on twice more: the tracking table of the pipeline
         # (shown by the 'st' output format) has to follow both source fields through the chain
         rules_only = [d for d in docs if "detection" in d and "title" in d and d["title"] != "Rbadchain"]
         victim = gen.pick(w, rules_only)
-        victim["detection"]["both"] = {"User": "a", "Image": "b"}
+        victim["detection"]["both"] = {"User": "a", "Image": "b", "CommandLine": "c", "ParentImage": "d"}
         first = next(k for k in victim["detection"] if k not in ("condition", "both"))
         victim["detection"]["condition"] = f"{first} or both"
-        pipeline["transformations"] += [
-            {"type": "field_name_mapping", "mapping": {"User": "m.x", "Image": "m.x"}},
+        # (in front of the other items, so that the chain sees the rule's own field names)
+        pipeline["transformations"][0:0] = [
+            {"type": "field_name_mapping", "mapping": {"User": "m.x", "Image": "m.x", "CommandLine": "m.x", "ParentImage": "m.x"}},
             {"type": "field_name_mapping", "mapping": {"m.x": "m.y"}},
             {"type": "field_name_mapping", "mapping": {"m.y": "m.z"}}]
         fmt_force = "st"
